@@ -26,6 +26,7 @@ RULE = ('Seeded include trees to depth 4 and fan-out 3 over a virtual file syste
         '>= 2 with a directory or base change between levels and an include issued after a nested include returned. Distinct by file system.')
 RULE += " Also: the including function reached through arrayIndexOf / arrayLastIndexOf / systemPartial; the root model executed as built (`'system': False` spelled out); include cycles with a terminating guard (self-include, ping-pong); URLs that are a scheme and a colon without `//`."
 RULE += ' Round 7: included files that exist and are empty (zero characters, blanks, a comment only); urlFn / systemPrefix options spelled out as None.'
+RULE += ' Round 8: trees that live below a base whose scheme the URL test does not recognise (s3://, HTTPS://, h2://): such a base is a path and comes out of the resolution as it went in; locations of 120-160 characters (a parser error names them in full).'
 ASSUMPTIONS = ['include cycles are generated only with a terminating guard (an unguarded self-include recurses until the host stack is exhausted; outside the property)',
                'system prefixes end with a slash; locations are compared after dot-segment / normpath normalisation']
 
